@@ -41,20 +41,23 @@ def punch_lock_rules(ctx, chk, rid):
                detail={"guard_locals": sorted(str(g) for g in guards)}, key="%s|same_guard|punch_holes" % rid,
                msg="(start,len,reserved) of a region must be one consistent snapshot")
     # parallel punch of layout holes: the closure runs inside a call made while LAYOUT:R and FILE:R are held
-    clos = [k for k in P.children.get(PUNCH_HOLES, []) if O.sites(P.bodies[k], PUNCH)]
-    if len(clos) != 1:
-        raise AnchorMissing("expected exactly one closure of punch_holes calling HolePunch::punch, found %d" % len(clos))
-    K = clos[0]
+    # (closures of sequential std combinators are spliced into `ph` and were judged above as direct sites; what is left
+    # are closures handed to the parallel iterator)
+    spliced = set(O.inlined_into(PUNCH_HOLES))
+    clos = [k for k in P.children.get(PUNCH_HOLES, []) if O.sites(P.bodies[k], PUNCH) and k not in spliced]
     inv = []
-    for b, t in ph.calls():
-        for a in t["args"]:
-            pl = a.get("m") or a.get("c")
-            if pl and K in ph.locals[pl["l"]].get("closures", []) and P.resolve(t["callee"])[0] == "external":
-                inv.append(b)
-    # the consuming call (sum/collect/for_each) is where the closure runs
-    if not inv:
-        raise AnchorMissing("no call consuming the parallel punch closure found in punch_holes")
-    for b in inv:
+    for K in clos:
+        found = False
+        for b, t in ph.calls():
+            for a in t["args"]:
+                pl = a.get("m") or a.get("c")
+                if pl and K in ph.locals[pl["l"]].get("closures", []) and P.resolve(t["callee"])[0] == "external":
+                    inv.append(b)
+                    found = True
+        # the consuming call (sum/collect/for_each) is where the closure runs
+        if not found:
+            raise AnchorMissing("no call consuming the parallel punch closure %s found in punch_holes" % K)
+    for b in sorted(set(inv)):
         held = O.held_classes(ph, b)
         t = ph.blocks[b]["term"]
         nm = names(t)[0]
@@ -98,6 +101,11 @@ def run(ctx, chk):
     # B12.6 = A10.2d: a relocation target is no longer listed as a hole while bytes are copied into it
     from props.c10 import hole_target_removed
     hole_target_removed(ctx, chk, "B12.6")
+    # B12.8 = A10.13, B12.9 = B05.3d
+    from props.c10 import hole_amount_conserved
+    hole_amount_conserved(ctx, chk, "B12.8")
+    from props.c05 import layout_map_writers
+    layout_map_writers(ctx, chk, "B12.9")
     # B12.4 what becomes a punchable hole at compact's own flush was never grown into: pending holes are occupied space
     pending_holes_occupied(ctx, chk, "B12.4")
     ph = O.body(PUNCH_HOLES)
